@@ -19,6 +19,7 @@ package c19
 
 import (
 	"bytes"
+	"os"
 	"encoding/hex"
 	"encoding/xml"
 	"fmt"
@@ -33,6 +34,22 @@ import (
 
 type ctx struct {
 	r *common.Run
+	// skel: prefix code of the regenerated skeleton of every writer of the working tree
+	skel map[string]string
+}
+
+func repoDir() string {
+	if d := os.Getenv("VERIF_REPO"); d != "" {
+		return d
+	}
+	return "/repo"
+}
+
+// skelLine ties the regenerated skeleton of a writer to one of its real token streams.
+func (c *ctx) skelLine(writer string, toks []xml.Token) {
+	if code, ok := c.skel[writer]; ok {
+		c.r.Line("skel "+code+" "+common.EncToks(toks), "1")
+	}
 }
 
 func find(name string) *entry {
@@ -283,7 +300,7 @@ func (c *ctx) replay(lines []string) {
 
 // Run is the C19 runner.
 func Run(r *common.Run) error {
-	c := &ctx{r: r}
+	c := &ctx{r: r, skel: skeletons(repoDir())}
 	if r.Replay != "" {
 		lines, err := common.ReplayLines(r.Replay)
 		if err != nil {
